@@ -5,11 +5,14 @@
 //   C05a the analysis terminates (deterministic step budget)
 //   C14  array loads (array domains) -- same oracle, observed on the lhs
 #include "core/report.hpp"
+#include <iostream>
+#include <cstdlib>
 #include "core/tape.hpp"
 #include "prog/domains.hpp"
 #include "prog/gen.hpp"
 #include "prog/interp.hpp"
 #include "prog/member.hpp"
+#include "prog/params.hpp"
 #include "prog/stmtkind.hpp"
 
 #include <crab/analysis/dataflow/liveness.hpp>
@@ -70,11 +73,16 @@ struct FwdObs : public Observer {
   std::map<label_t, csts_t> *assumptions = nullptr;
   MemberOpts mo;
   bool saw_nontrivial_inv = false;
-  unsigned checks = 0;
+  unsigned checks = 0, loads_checked = 0, symbolic_loads = 0;
+  const char *mp = "C01"; // property the membership oracle reports under (C14 for array domains when selected)
   std::vector<var_t> scalars;
   bool magnitude_hit = false;
 
-  FwdObs(analyzer_t &an, CaseCtx &c, Program &p) : a(an), ctx(c), prog(p) { scalars = p.all_scalar_vars(); }
+  FwdObs(analyzer_t &an, CaseCtx &c, Program &p) : a(an), ctx(c), prog(p) {
+    scalars = p.all_scalar_vars();
+    if (ctx.selected_prop == "C14")
+      mp = "C14";
+  }
 
   BlockInv &inv(const label_t &l) {
     auto it = cache.find(l);
@@ -121,7 +129,7 @@ struct FwdObs : public Observer {
     note(bi.pre);
     checks++;
     std::string r = member(s, bi.pre, mo);
-    VCHECK(ctx, "C01", r.empty(), "fwd_pre_" + mkind(r),
+    VCHECK(ctx, mp, r.empty(), "fwd_pre_" + mkind(r),
            "state " << s.str() << " enters block " << l << " but is not in get_pre = " << to_str(bi.pre) << " : " << r);
   }
   void after_stmt(const cfg_t &cfg, const label_t &l, unsigned idx, stmt_t &st, const State &s) override {
@@ -132,8 +140,21 @@ struct FwdObs : public Observer {
     if (idx >= bi.after.size())
       return;
     checks++;
+    if (st.is_arr_read() && !bi.after[idx].is_top()) {
+      loads_checked++;
+      auto &ld = static_cast<crab::cfg::statement_visitor<label_t, z_number, varname_t>::arr_load_t &>(st);
+      if (!ld.index().is_constant())
+        symbolic_loads++;
+    }
     std::string r = member(s, bi.after[idx], mo);
-    VCHECK(ctx, "C01", r.empty(), "fwd_stmt_" + stmt_kind(st) + "_" + mkind(r),
+    std::string tag = "fwd_stmt_" + stmt_kind(st) + "_" + mkind(r);
+    // known finding (known_findings.json): array_adaptive drops stores beyond
+    // array_adaptive.max_array_size cells without remembering it, and a later load
+    // through a symbolic index only looks at the cells it still tracks
+    if (!r.empty() && st.is_arr_read() && std::string(VERIF_VARIANT).compare(0, 3, "aa_") == 0 &&
+        crab::domains::crab_domain_params_man::get().array_adaptive_max_array_size() <= 8)
+      tag = "aa_symbolic_load_unsound_small_max_array_size";
+    VCHECK(ctx, mp, r.empty(), tag,
            "after `" << to_str(st) << "` in block " << l << " state " << s.str() << " is not in the propagated invariant "
                      << to_str(bi.after[idx]) << " (before: " << (idx ? to_str(bi.after[idx - 1]) : to_str(bi.pre)) << ") : " << r);
   }
@@ -144,7 +165,7 @@ struct FwdObs : public Observer {
     note(bi.post);
     checks++;
     std::string r = member(s, bi.post, mo);
-    VCHECK(ctx, "C01", r.empty(), "fwd_post_" + mkind(r),
+    VCHECK(ctx, mp, r.empty(), "fwd_post_" + mkind(r),
            "state " << s.str() << " leaves block " << l << " but is not in get_post = " << to_str(bi.post) << " : " << r);
   }
   void assertion(const cfg_t &, stmt_t &st, bool holds, const State &) override {
@@ -167,7 +188,7 @@ void run_case(const uint8_t *data, size_t size, CaseCtx &ctx) {
   bool use_liveness = t.flag();
   crab::CrabSanityCheckFlag = false;
   crab::CrabWarningFlag = false;
-  crab::domains::crab_domain_params_man::get() = crab::domains::crab_domain_params();
+  decode_domain_params(t, VERIF_VARIANT, ctx.log);
 
   // ---- program -------------------------------------------------------------------
   Program prog;
@@ -183,6 +204,8 @@ void run_case(const uint8_t *data, size_t size, CaseCtx &ctx) {
   ctx.log << cfg_text;
   ctx.mixs(cfg_text);
   ctx.mix(fp.get_widening_delay() * 64 + fp.get_descending_iterations() * 8 + fp.get_max_thresholds());
+  if (getenv("VERIF_TRACE"))
+    std::cerr << ctx.log.str() << std::flush;
   type_check(cfg);
   R().cls(prog.structured ? "shape_structured" : "shape_unstructured");
   if (prog.n_loops)
@@ -226,6 +249,9 @@ void run_case(const uint8_t *data, size_t size, CaseCtx &ctx) {
     VCHECK(ctx, "C05", false, "fwd_analysis_step_budget", "forward analysis exceeded " << e.steps << " fixpoint/transfer events (suspected non-termination)");
     throw Truncate{"step_budget"};
   }
+  if (ctx.verbose)
+    for (auto &l : prog.labels)
+      ctx.log << "  inv " << l << ": pre=" << to_str(a.get_pre(l)) << " post=" << to_str(a.get_post(l)) << "\n";
   unsigned long analysis_steps = g_step_count;
   g_step_budget = ~0UL;
   R().cls(analysis_steps > 1000 ? "analysis_steps_gt_1000" : "analysis_steps_le_1000");
@@ -308,7 +334,13 @@ void run_case(const uint8_t *data, size_t size, CaseCtx &ctx) {
     R().cls("program_with_safe_or_unreach_claim");
   bool c02_nt = n_claims > 0 && n_reached > 0;
   bool c01_nt = obs.saw_nontrivial_inv && long_execs > 0;
-  if (ctx.selected_prop == "C02")
+  if (obs.loads_checked)
+    R().cls("program_with_checked_array_load");
+  if (obs.symbolic_loads)
+    R().cls("program_with_checked_symbolic_load");
+  if (ctx.selected_prop == "C14")
+    ctx.nontrivial = obs.loads_checked > 0 && (obs.symbolic_loads > 0 || prog.n_loops > 0 || prog.n_ifs > 0 || !prog.structured);
+  else if (ctx.selected_prop == "C02")
     ctx.nontrivial = c02_nt;
   else if (ctx.selected_prop == "C05")
     ctx.nontrivial = prog.n_loops > 0 && analysis_steps > 0;
